@@ -256,7 +256,14 @@ func cause(op []string, prev *rState) string {
 }
 
 func oracle(prop string) func(ops, outs []string) *corr.Violation {
-	return func(ops, outs []string) *corr.Violation {
+	return func(ops, masked []string) *corr.Violation {
+		// judge the implementation's real answers (the differ's view masks lines whose recorded observations are stale)
+		outs := masked
+		realMu.Lock()
+		if r, ok := realOuts[opsKey(ops)]; ok && len(r) == len(ops) {
+			outs = r
+		}
+		realMu.Unlock()
 		var vs []viol
 		add := func(i int, sig, msg string) {
 			vs = append(vs, viol{prop + ":" + sig, fmt.Sprintf("op %d %q: %s", i, ops[i], msg), i})
@@ -437,7 +444,21 @@ func oracle(prop string) func(ops, outs []string) *corr.Violation {
 				break
 			}
 		}
-		return &corr.Violation{Signature: pick.sig, Message: pick.msg, Ops: ops[:pick.at+1], Impl: outs[:pick.at+1]}
+		// the replay carries the observations of THIS run (fresh), so that it replays identically on the model
+		fresh := make([]string, pick.at+1)
+		for i := 0; i <= pick.at; i++ {
+			op, _ := splitOp(ops[i])
+			st := outs[i]
+			if j := strings.Index(st, " # "); j >= 0 {
+				st = st[:j]
+			}
+			if len(op) > 0 && op[0] == "init" {
+				fresh[i] = strings.Join(op, " ")
+			} else {
+				fresh[i] = record(op, st, outs[i])
+			}
+		}
+		return &corr.Violation{Signature: pick.sig, Message: pick.msg, Ops: fresh, Impl: outs[:pick.at+1]}
 	}
 }
 
